@@ -368,6 +368,11 @@ def check_dispatch(mon, prev, snap, tx):
         if prev is not None and want != dispatched:
             mon.finding("the step that left PENDING is not the one that was chosen",
                         f"chosen {[label(dsnap, i) for i in want]} dispatched {[label(snap, i) for i in dispatched]}")
+    elif not dispatched:
+        # pop_next_job returned without choosing (it found the scheduler draining once it had the
+        # database lock): no decision was taken, so there is nothing to judge
+        mon.count("pops_without_a_decision")
+        return
     else:
         dsnap = snap
         model = Model(snap, override_state={i: P for i in dispatched})
